@@ -2,6 +2,7 @@ import logging
 from functools import wraps
 from threading import RLock
 from contextlib import contextmanager
+from weakref import finalize
 
 from .logwrap import LogWrapper
 
@@ -22,6 +23,11 @@ def executor_loop(fn):
     return out
 
 
+def _dec_unless_shut_down(shutdown_helper, gauge):
+    if shutdown_helper():
+        gauge.dec()
+
+
 class ShutdownHelper(object):
     def __init__(self):
         # Re-entrant so that a callable running inline within submit() (e.g. on
@@ -35,6 +41,12 @@ class ShutdownHelper(object):
             if self.is_shutdown:
                 raise RuntimeError("cannot schedule new futures after shutdown")
             yield
+
+    def dec_when_dropped(self, owner, gauge):
+        # An executor which is dropped without shutdown() is not in use any
+        # more either (f_map, f_timeout and friends create executors which
+        # nobody ever shuts down): take it off the in-progress gauge then.
+        finalize(owner, _dec_unless_shut_down, self, gauge).atexit = False
 
     def __call__(self):
         # Ensure shut down, return True if newly shutdown or
